@@ -227,7 +227,7 @@ SE2Base<_Derived>::log(OptJacobianRef J_t_m) const
   Scalar A,  // sin_theta_by_theta
          B;  // one_minus_cos_theta_by_theta
 
-  if (theta_sq < Constants<Scalar>::eps)
+  if (theta_sq * theta_sq < Constants<Scalar>::eps)
   {
     // Taylor approximation
     A = Scalar(1) - Scalar(1. / 6.) * theta_sq;
